@@ -262,6 +262,11 @@ theorem setItems_obj (s : S) (o : Nat) (l : List Nat) (i : Nat) :
 theorem setContent_obj (s : S) (o : Nat) (c : List Nat) (i : Nat) :
     (s.setContent o c).h.obj i = if i = o then { s.h.obj o with content := c } else s.h.obj i := rfl
 
+@[simp] theorem setCache_next (s : S) (o : Nat) (c : List Nat) : (s.setCache o c).h.next = s.h.next := rfl
+@[simp] theorem setCache_tr (s : S) (o : Nat) (c : List Nat) : (s.setCache o c).tr = s.tr ++ [.cachew o] := rfl
+theorem setCache_obj (s : S) (o : Nat) (c : List Nat) (i : Nat) :
+    (s.setCache o c).h.obj i = if i = o then { s.h.obj o with cache := c } else s.h.obj i := rfl
+
 theorem getF_alloc (s : S) (ob : Obj) (o f : Nat) :
     getF (s.alloc ob).1.h o f = if o = s.h.next then ob.fields.lookup f else getF s.h o f := by
   unfold getF; rw [alloc_obj]; split <;> rfl
@@ -292,6 +297,12 @@ theorem getF_setItems (s : S) (o : Nat) (l : List Nat) (o' f : Nat) :
 theorem getF_setContent (s : S) (o : Nat) (c : List Nat) (o' f : Nat) :
     getF (s.setContent o c).h o' f = getF s.h o' f := by
   unfold getF; rw [setContent_obj]; split
+  · rename_i h; subst h; rfl
+  · rfl
+
+theorem getF_setCache (s : S) (o : Nat) (c : List Nat) (o' f : Nat) :
+    getF (s.setCache o c).h o' f = getF s.h o' f := by
+  unfold getF; rw [setCache_obj]; split
   · rename_i h; subst h; rfl
   · rfl
 
@@ -389,6 +400,23 @@ theorem Wf.setContent {s : S} (w : Wf s.h) {o : Nat} {c : List Nat} (ho : o < s.
     intro i x hx
     simp only [setContent_next]
     rw [setContent_obj] at hx
+    split at hx
+    · exact w.closed o x hx
+    · exact w.closed i x hx
+
+theorem Wf.setCache {s : S} (w : Wf s.h) {o : Nat} {c : List Nat} (ho : o < s.h.next) :
+    Wf (s.setCache o c).h where
+  fresh := by
+    intro i hi
+    simp only [setCache_next] at hi
+    rw [setCache_obj]
+    have : i ≠ o := by omega
+    simp only [this, if_false]
+    exact w.fresh i hi
+  closed := by
+    intro i x hx
+    simp only [setCache_next]
+    rw [setCache_obj] at hx
     split at hx
     · exact w.closed o x hx
     · exact w.closed i x hx
